@@ -161,6 +161,7 @@ def run(ck: Checker):
     ck.rule('C07.FOLD', 'the loop-only branch of the shifted adder (shift >= len(a)) instantiated for small widths and shifts: the result decodes to a + b * 2^shift on len(b) + shift bits, both endiannesses')
     fold_shift_branch(ck, B)
     worklist_rule(ck)
+    transpose_rule(ck)
     n_ts = basis_rules(ck, [SUM], public)
     ck.need(n_ts >= 5, f'only {n_ts} basis comparisons found in summation.py (5 confirmed)')
     ck.floor('C07.BASIS-REACH', 10)
@@ -240,3 +241,16 @@ def worklist_rule(ck: Checker, rule='C07.WORKLIST'):
                      f'work list(s) {missing} receive items inside the loop but the loop condition `{norm(w.test)}` ignores them: the loop can stop while carried bits are still pending and the top result bits are dropped',
                      construct=f'{q} level loop condition')
     ck.need(n >= 2, f'only {n} work-list loops found in summation.py (2 confirmed)')
+
+
+def transpose_rule(ck: Checker, rule='C07.TRANSPOSE'):
+    """add_sum_pow2_m1 sums blocks of different sizes (2^k - 1 bits give k result bits) and then regroups the block
+    results by level; the regrouping must keep the longer blocks' high bits (confirmed instance, kept as a table entry)."""
+    ck.rule(rule, 'block results of different lengths are regrouped by level without truncation (zip_longest, empty slots filtered)')
+    m = ck.repo.mod(SUM)
+    fn = m.func('add_sum_pow2_m1')
+    regroup = [n for n in ast.walk(fn) if isinstance(n, ast.Call) and call_name(n) in ('zip', 'zip_longest') and len(n.args) == 1 and isinstance(n.args[0], ast.Starred) and norm(n.args[0].value) == 'out']
+    ck.need(len(regroup) == 1, f'{m.rel}: regrouping of the block results in add_sum_pow2_m1 not found')
+    ck.check(call_name(regroup[0]) == 'zip_longest', rule, m, regroup[0], 'add_sum_pow2_m1 regroups ragged block results with zip_longest',
+             '`zip(*out)` stops at the shortest block: when a level is cut into blocks of different size the larger block\'s high carry is silently dropped (wrong sums / products for >= 8 equal-weight bits)',
+             construct='add_sum_pow2_m1 regrouping of block results')
